@@ -16,3 +16,8 @@ Definition ov_sub128 (x y : Z) : Z * bool := ((x - y) mod BB, x <? y).
    translation makes it a Panic so that no theorem can rely on it *)
 Definition tbl (t : list Z) (i : Z) : outcome Z :=
   match nth_error t (Z.to_nat i) with Some x => Val x | None => Panic end.
+(* `x[i]` on a slice: out of bounds = Panic;  `x[i] = v` after a successful read of x[i] *)
+Definition idx (l : list Z) (i : Z) : outcome Z :=
+  match nth_error l (Z.to_nat i) with Some x => Val x | None => Panic end.
+Definition upd (l : list Z) (i v : Z) : list Z :=
+  firstn (Z.to_nat i) l ++ v :: skipn (S (Z.to_nat i)) l.
